@@ -363,7 +363,7 @@ Proof.
         eapply Permutation_in; [apply Permutation_sym; exact Hperm|left; auto]. }
     destruct (fire_refines s e r o bad f ev' I PM D T) as [Hin Hf].
     pose proof (call_fn_inv f (e_args e) _ (popped_inv _ _ _ _ _ _ _ I PM D T)) as I2.
-    destruct (call_fn f (e_args e) (popped e r o bad ev' s)) as [s1 x]. simpl in *.
+    destruct (call_fn f (e_args e) (popped e r o bad ev' s)) as [s1 x]. rewrite ?after_call_never. simpl in *.
     intros F. eapply brun_fire; [exact Hin| | |rewrite Hf; apply IH; auto].
     + intros y Hy. apply in_map_iff in Hy. destruct Hy as [z [<- Hz]]. simpl. apply Hmin; auto.
     + simpl. apply due_lt; auto using table_strict.
@@ -420,7 +420,7 @@ Proof.
   destruct (due (e_t e) (now s)); auto.
   destruct (take_key (e_name e) (events s)) as [[f ev']|]; auto.
   pose proof (call_fn_fuelout f (e_args e) (popped e r o bad ev' s)) as F2.
-  destruct (call_fn f (e_args e) (popped e r o bad ev' s)) as [s1 x]. simpl in *. apply IH. congruence.
+  destruct (call_fn f (e_args e) (popped e r o bad ev' s)) as [s1 x]. rewrite ?after_call_never. simpl in *. apply IH. congruence.
 Qed.
 
 Lemma run_ops_sticky fuel ops : forall s, fuelout s = true -> fuelout (run_ops fuel ops s) = true.
